@@ -35,7 +35,18 @@ def chain_cases(maxlen):
     return out
 
 
-def build_pair(chain, timeat=False):
+TAILS = {
+    'light': lambda: [R.Action('set', [R.Operand('light', R.Str('A'))]), R.Action('on', [R.Operand('light', R.Str('B'))])],
+    'zone': lambda: [R.Action('set', [R.Operand('light', R.Str('Z'), zone=(N(value=1), N(value=3)))]), R.Action('set', [R.Operand('light', R.Str('Z'))])],
+    'group': lambda: [R.Action('set', [R.Operand('group', R.Str('G1'))]), R.Action('off', [R.Operand('group', R.Str('G2'))])],
+    'location': lambda: [R.Action('set', [R.Operand('location', R.Str('L2'))]), R.Action('on', [R.Operand('location', R.Str('L1'))])],
+    'all': lambda: [R.Action('set', 'all'), R.Action('off', 'all')],
+    'and-list': lambda: [R.Action('set', [R.Operand('light', R.Str('A')), R.Operand('group', R.Str('G2'))])],
+    'matrix': lambda: [R.Action('set', [R.Operand('light', R.Str('M'), matrix=('inline', (N(value=0), N(value=1)), None))])],
+}
+
+
+def build_pair(chain, timeat=False, tail_kind='light'):
     """-> (case_with_chain, case_plain) sharing the same symbolic literals.  With timeat the pending
     delay is a time-of-day wait instead of a number."""
     m0 = chain[0]
@@ -53,9 +64,9 @@ def build_pair(chain, timeat=False):
     tmax = 10 ** 6 if m0 != 'raw' else 10 ** 9
     pre.append(R.TimeAt(['8:00', '2*:*5']) if timeat else R.SetReg('time', num(('real', 0, tmax))))
     pre.append(R.SetReg('duration', num(('real', 0, tmax))))
-    tail = [R.Action('set', [R.Operand('light', R.Str('A'))]), R.Action('on', [R.Operand('light', R.Str('B'))])]
+    tail = TAILS[tail_kind]()
     sw = [R.Units(m) for m in chain[1:]]
-    tag = '>'.join(chain) + (' [time at]' if timeat else '')
+    tag = '>'.join(chain) + (' [time at]' if timeat else '') + ('' if tail_kind == 'light' else ' [%s]' % tail_kind)
     return (scripth.Case(pre + sw + tail, tag=tag, doms=doms), scripth.Case(pre + tail, tag=tag + ' (plain)', doms=doms))
 
 
@@ -99,10 +110,10 @@ def fold_delays(trace):
 
 def pair_worker(args):
     chain = args['chain']
-    res = report.WorkResult('>'.join(chain) + (' [time at]' if args.get('timeat') else ''))
+    ca, cb = build_pair(chain, args.get('timeat', False), args.get('tail', 'light'))
+    res = report.WorkResult(ca.tag)
     world.start_function_trace()
     res.sites.add('relational')
-    ca, cb = build_pair(chain, args.get('timeat', False))
     rgb = 'rgb' in chain
     mode = 'elide' if rgb else 'exact'
     proga, slotsa = scripth.compile_case(ca)
@@ -130,6 +141,23 @@ def pair_worker(args):
             elif x[0] == 'power':
                 d = symx.term(x[3]) - symx.term(y[3])
                 cons.append(('ev%d power duration' % i, z3.And(d <= tol_t, -d <= tol_t, symx.eq(x[2], y[2]))))
+            elif x[0] in ('zone', 'all_color', 'all_power', 'tile'):
+                col, dur = {'zone': (4, 5), 'all_color': (1, 2), 'all_power': (None, 2), 'tile': (2, 3)}[x[0]]
+                d = symx.term(x[dur]) - symx.term(y[dur])
+                cons.append(('ev%d %s duration' % (i, x[0]), z3.And(d <= tol_t, -d <= tol_t)))
+                if x[0] == 'zone':
+                    if (x[1], x[2], x[3]) != (y[1], y[2], y[3]):
+                        return 'ev%d: zone range differs' % i, None
+                    cons.append(('ev%d zone colour' % i, color_close(x[col], y[col], tol_c, rgb)))
+                elif x[0] == 'all_color':
+                    cons.append(('ev%d colour' % i, color_close(x[col], y[col], tol_c, rgb)))
+                elif x[0] == 'all_power':
+                    cons.append(('ev%d power' % i, symx.eq(x[1], y[1])))
+                else:
+                    if len(x[col]) != len(y[col]):
+                        return 'ev%d: tile size differs' % i, None
+                    for k, (ca_, cb_) in enumerate(zip(x[col], y[col])):
+                        cons.append(('ev%d cell %d colour' % (i, k), color_close(ca_, cb_, tol_c, rgb)))
         return None, cons
 
     from fractions import Fraction
@@ -209,6 +237,20 @@ def replay_pair(ca, cb, proga, slotsa, progb, slotsb, cv, rgb):
                     return 'duration %r vs %r' % (x[3], y[3])
             if x[0] == 'power' and (abs(x[3] - y[3]) > 1 or x[2] != y[2]):
                 return 'power %r vs %r' % (x, y)
+            if x[0] in ('zone', 'all_color', 'all_power', 'tile'):
+                col, dur = {'zone': (4, 5), 'all_color': (1, 2), 'all_power': (None, 2), 'tile': (2, 3)}[x[0]]
+                if abs(x[dur] - y[dur]) > 1:
+                    return '%s duration %r vs %r' % (x[0], x[dur], y[dur])
+                if x[0] == 'all_power' and x[1] != y[1]:
+                    return 'power %r vs %r' % (x, y)
+                if x[0] in ('zone', 'all_color') and not z3.is_true(z3.simplify(color_close(x[col], y[col], 1, rgb))):
+                    return '%s colour %r vs %r' % (x[0], x[col], y[col])
+                if x[0] == 'zone' and (x[1], x[2], x[3]) != (y[1], y[2], y[3]):
+                    return 'zone range %r vs %r' % (x[1:4], y[1:4])
+                if x[0] == 'tile':
+                    for k, (ca_, cb_) in enumerate(zip(x[col], y[col])):
+                        if not z3.is_true(z3.simplify(color_close(ca_, cb_, 1, rgb))):
+                            return 'cell %d colour %r vs %r' % (k, ca_, cb_)
         return None
     finally:
         world.install_real_mode()
@@ -320,6 +362,11 @@ def run(tier, seed):
                'budget_s': 40 if tier == 'quick' else 150} for c in chains]
     # the pending delay may be a time-of-day wait: it must survive the switches untouched
     items += [{'chain': c, 'timeat': True, 'timeout_ms': 10000, 'max_paths': 3000, 'budget_s': 40} for c in chains if len(c) <= 3 and 'rgb' not in c[1:-1]]
+    # the other command kinds (zone, group, location, all, and-list, matrix cell): single switches (quick), chains of two (thorough)
+    for tail in TAILS:
+        if tail != 'light':
+            items += [{'chain': c, 'tail': tail, 'timeout_ms': 10000, 'max_paths': 2000, 'budget_s': 30 if tier == 'quick' else 120}
+                      for c in chains if len(c) <= (2 if tier == 'quick' else 3)]
     results, skipped = report.run_pool(dispatch, items, budget_s=common.tier_budget(tier, 80, 1000))
     return report.finish(
         PROP, tier, seed, 'exploration', results, skipped,
